@@ -1,6 +1,7 @@
 package main
 
 import (
+	"errors"
 	"encoding/json"
 	"fmt"
 	"os"
@@ -47,6 +48,8 @@ type locGen struct {
 	keyed    bool
 	timeUnit int64
 	sem      map[string]interface{} // script table shared by the rules of a case
+	rules    map[string]map[string]interface{} // last rule generated per id (for vetoed replacements)
+	hooks    bool                              // the locations of this case carry hooks (cron + veto)
 }
 
 func init() {
@@ -151,6 +154,11 @@ func (lg *locGen) op() map[string]interface{} {
 				dw = append(dw, "dangling")
 			}
 			f["deleteWith"] = dw
+			if r.Intn(3) == 0 {
+				// the dependent also MENTIONS some id in an ordinary field (the term index returns it
+				// for that id too; only the re-match tells a mention from a deleteWith entry)
+				f[pick(r, "ref", "owner", "k").(string)] = lg.ids[r.Intn(len(lg.ids))]
+			}
 		}
 		if lg.profile == "expiry" {
 			lg.expiry(f)
@@ -185,6 +193,17 @@ func (lg *locGen) op() map[string]interface{} {
 		}
 		if lg.profile == "cascade" && r.Intn(2) == 0 {
 			rule["deleteWith"] = []interface{}{lg.ids[r.Intn(len(lg.ids))]}
+			if r.Intn(3) == 0 {
+				// a dependent rule with an expiry of its own (far in the future)
+				switch r.Intn(3) {
+				case 0:
+					rule["expires"] = 4102444800.0
+				case 1:
+					rule["expires"] = "2100-01-01T00:00:00Z"
+				default:
+					rule["ttl"] = "100000s"
+				}
+			}
 		}
 		if lg.profile == "expiry" && r.Intn(2) == 0 {
 			lg.expiry(rule)
@@ -195,6 +214,23 @@ func (lg *locGen) op() map[string]interface{} {
 			}
 			if r.Intn(3) == 0 {
 				rule["deleteWith"] = []interface{}{lg.ids[r.Intn(len(lg.ids))]}
+			}
+		}
+		if lg.hooks && lg.profile == "dispatch" {
+			if old, have := lg.rules[id]; have && o["id"] == id && r.Intn(4) == 0 {
+				// a replacement that the state's add hook rejects: same `when` (same place in the
+				// pattern index), "veto": true; the stored rule must stay as it was - and findable
+				// (only such replacements are vetoed: a vetoed rule with a NEW pattern leaves empty nodes in
+				// the pattern index - add then undo - which the model's "state unchanged" does not carry and
+				// which decide whether an unsortable event is refused, finding D7)
+				rule = deepCopy(old).(map[string]interface{})
+				rule["veto"] = true
+			}
+			if o["id"] == id && rule["veto"] != true {
+				if lg.rules == nil {
+					lg.rules = map[string]map[string]interface{}{}
+				}
+				lg.rules[id] = deepCopy(rule).(map[string]interface{})
 			}
 		}
 		o["rule"] = rule
@@ -347,6 +383,7 @@ func genLocCase(r *rand.Rand, prof string) Case {
 	if prof == "cascade" && r.Intn(6) == 0 {
 		lg.ids = append(lg.ids, "?v") // variable-looking id (D14)
 	}
+	lg.hooks = prof == "dispatch" && r.Intn(3) == 0
 	nlocs := 1
 	if prof == "forest" {
 		nlocs = 3 + r.Intn(2)
@@ -364,6 +401,10 @@ func genLocCase(r *rand.Rand, prof string) Case {
 		if prof == "cronhooks" {
 			l["hooks"] = true
 			l["persistent"] = r.Intn(2) == 0
+		}
+		if prof == "dispatch" && lg.hooks {
+			l["hooks"] = true
+			l["persistent"] = true
 		}
 		if prof == "expiry" && l["kind"] == "indexed" && r.Intn(2) == 0 {
 			// (indexed state only, for now: LinearState.search/FindRules return the purge's error, which
@@ -500,6 +541,18 @@ func errRes(err error) map[string]interface{} {
 	return map[string]interface{}{"ok": false, "class": classifyErr(err), "msg": err.Error()}
 }
 
+// hookCatcher receives the closures cron.AddHooks installs, so that they can be composed.
+type hookCatcher struct {
+	core.State
+	add core.AddHookFn
+	rem core.RemHookFn
+}
+
+func (h *hookCatcher) AddHook(f core.AddHookFn) { h.add = f }
+func (h *hookCatcher) RemHook(f core.RemHookFn) { h.rem = f }
+
+var errVetoed = errors.New("vetoed by the add hook")
+
 type locWorld struct {
 	cronners map[string]*recCronner
 	ctx      *core.Context
@@ -534,9 +587,24 @@ func (w *locWorld) open(name string) error {
 		return err
 	}
 	if rc := w.cronners[name]; rc != nil {
-		if err := cron.AddHooks(ctx, rc, state); err != nil {
+		// the hooks of the harness: a validating add hook that rejects anything marked "veto": true
+		// (in the fact or in its rule body), then the cron hooks (captured from cron.AddHooks)
+		hc := &hookCatcher{State: state}
+		if err := cron.AddHooks(ctx, rc, hc); err != nil {
 			return err
 		}
+		state.AddHook(func(ctx *core.Context, st core.State, id string, fact core.Map, loading bool) error {
+			if v, _ := fact["veto"].(bool); v {
+				return errVetoed
+			}
+			if rm, isMap := fact["rule"].(map[string]interface{}); isMap {
+				if v, _ := rm["veto"].(bool); v {
+					return errVetoed
+				}
+			}
+			return hc.add(ctx, st, id, fact, loading)
+		})
+		state.RemHook(hc.rem)
 	}
 	ctrl := core.DefaultControl()
 	if m, ok := w.maxes[name]; ok {
